@@ -302,6 +302,12 @@ def work(job):
     pairs = [(rng.range(1, min(n - 1, top)), rng.range(1, min(n - 1, top))), (1, min(n - 1, top)), (2, rng.range(1, min(n - 1, top)))]
     if light:
         pairs = pairs[:1]
+    # own key 1 with peer G, and dB = dA^-1 mod n: the secret is x(G) - 0 resp. 1 on some GOST curves
+    da_inv = rng.range(2, min(n - 1, top))
+    if pow(da_inv, -1, n) <= top:
+        pairs += [(1, 1), (da_inv, pow(da_inv, -1, n))]
+    else:
+        pairs += [(1, 1)]
     for pi, (da, db) in enumerate(pairs):
         QA, QB = ecdsa.mul_g(c, da), ecdsa.mul_g(c, db)
         for cof in (0, 1):
@@ -632,9 +638,11 @@ def work(job):
         else:
             cls(kind, ok)
     # ------------------------------------------------------------------ phase 2: import(export(P))
-    cases2 = [case_import(ci, le, qx, qy, None, pat=pat()) for (P, form, qx, qy) in imp2]
+    # every second re-import goes into a point object that held O before (imported from 00)
+    imp2 = [(P, form, qx, qy, (i % 2 == 1)) for i, (P, form, qx, qy) in enumerate(imp2)]
+    cases2 = [case_import(ci, le, qx, qy, None, pat=pat(), dirty=dirty) for (P, form, qx, qy, dirty) in imp2]
     res2 = rejudge_intra_object(part, exe, vm, cases2, common.run_cases(exe, cases2), lambda i: entry("import2"))
-    for (P, form, qx, qy), o, cs in zip(imp2, res2, cases2):
+    for (P, form, qx, qy, dirty), o, cs in zip(imp2, res2, cases2):
         ent = entry("import2")
         part["evaluations"] += 1
         if isinstance(o, common.Crash):
@@ -644,9 +652,12 @@ def work(job):
         inf_flag = ob.r.u8()
         x, y = int.from_bytes(ob.r.blob(), "big"), int.from_bytes(ob.r.blob(), "big")
         got = None if inf_flag else (x, y)
-        cls("roundtrip", form, ob.rc == 0)
+        cls("roundtrip", form, dirty, ob.rc == 0)
         if ob.rc != 0:
             viol("oracle:%s:rejects-valid:%s" % (ent, form), cs, "accept", {"rc": ob.rc}, "import of the library's own export")
+        elif got != P and dirty and got is None:
+            viol("oracle:%s:roundtrip-differs:into-point-that-held-O" % ent, cs, str(P), "O (infinity flag still set)",
+                 "import of a valid %s key into a point object that was imported from 00 before" % form)
         elif got != P:
             viol("oracle:%s:roundtrip-differs:%s" % (ent, form), cs, str(P), str(got), "import(export(P)) != P")
         else:
@@ -673,6 +684,27 @@ def bn_level_keys(part, c, ci, vname, vm, exe, rng, tier, viol, cls):
             dv = rng.range(1, n - 1) if (mode + dirty) % 2 else [1, 2, n - 1][(mode + dirty) // 2 % 3]
             plans.append((mode, dirty, dv, rng.below(2), rng.range(1, n - 1)))
     plans.append((0, 1, n + 3, 0, 5))        # key_gen reduces rnd >= n: d' = ((n+3) mod (n-1)) + 1
+    # bn-level DH whose secret is x(G): own key 1 with peer G, dB = dA^-1 with peer dA*G
+    da = rng.range(2, n - 1)
+    dh_plans = [(1, c.G, 0), (1, c.G, 1), (pow(da, -1, n), ecdsa.mul_g(c, da), 0), (n - 1, c.G, 0)]
+    dh_cases = [base.case_dh_bn(ci, Qp, cof, dd, alias=i % 2, pat=rng.below(256)) for i, (dd, Qp, cof) in enumerate(dh_plans)]
+    for (dd, Qp, cof), o, cs in zip(dh_plans, rejudge_intra_object(part, exe, vm, dh_cases, common.run_cases(exe, dh_cases), lambda i: "ecdsa_dh"), dh_cases):
+        part["evaluations"] += 1
+        if isinstance(o, common.Crash):
+            judge_crash(part, o, "ecdsa_dh", vname, vm, cs, "curve %s bn-level DH d=%x" % (c.name, dd))
+            continue
+        ob = Obs(o)
+        if ob.rc == RC_SETUP:
+            continue
+        sh = int.from_bytes(ob.r.blob(), "big")
+        want = ecdsa.dh(c, dd, Qp, cof)
+        cls("bn-dh-xG", cof, want == 0, ob.rc == 0)
+        if ob.rc != 0:
+            viol("oracle:ecdsa_dh:fails-on-valid-input:rc%d" % ob.rc, cs, hex(want), {"rc": ob.rc}, "bn-level DH d=%x whose secret is x(+-G)" % dd)
+        elif sh != want:
+            viol("oracle:ecdsa_dh:wrong-shared-secret", cs, hex(want), hex(sh), "bn-level DH d=%x" % dd)
+        else:
+            common.part_count(part, "dh_ok")
     cases = [base.case_kg_bn(ci, m, dt, stale, dv, cof, d2, pat=rng.below(256)) for (m, dt, dv, cof, d2) in plans]
     res = rejudge_intra_object(part, exe, vm, cases, common.run_cases(exe, cases), lambda i: "ecdsa_key_gen")
     for (m, dt, dv, cof, d2), o, cs in zip(plans, res, cases):
